@@ -85,7 +85,7 @@ def main():
             return 0 if same else 1
         n = 30 if tier == "quick" else 200
         progs = []
-        for prof in ("everything", "syncfaults", "ctxsync", "kinds3", "throw", "session", "ival", "spawn", "spawnsync"):
+        for prof in ("everything", "syncfaults", "ctxsync", "kinds3", "throw", "session", "ival", "spawn", "spawnsync", "batchleaf"):
             progs += plang.sample(prof, seed, n)
         mc = pipeline.model_check(progs, sc, cfg="SchedExport.cfg", chunk=4000)
         if not mc["ok"]:
